@@ -469,3 +469,85 @@ func staticCalleeIs(c *ssa.CallCommon, pkg, recv, name string) bool {
 	}
 	return isMethod(sc, pkg, recv, name)
 }
+
+// ---------------------------------------------------------------------------
+// Effective calls: a call to a target as seen from a function fn, looking through one level
+// of local closures and small same-package helpers (the usual "extract function" refactoring).
+
+// effCall is one call to a target function reachable from fn: directly (Inner == Site) or
+// inside a helper that fn calls at Site. Args are the target's arguments expressed in fn's
+// values where the helper passes one of its own parameters through (nil when not expressible).
+type effCall struct {
+	Site   ssa.CallInstruction // the call instruction in fn
+	Inner  ssa.CallInstruction // the call to the target (in fn or in the helper)
+	Helper *ssa.Function       // nil for a direct call
+	Args   []ssa.Value
+}
+
+// effectiveCalls lists the calls to functions accepted by isTarget from fn.
+func (w *World) effectiveCalls(fn *ssa.Function, isTarget func(ssa.CallInstruction) bool) []effCall {
+	var out []effCall
+	allInstrs(fn, func(in ssa.Instruction) {
+		ci, ok := in.(ssa.CallInstruction)
+		if !ok {
+			return
+		}
+		if _, isGo := in.(*ssa.Go); isGo {
+			return
+		}
+		if isTarget(ci) {
+			out = append(out, effCall{Site: ci, Inner: ci, Args: append([]ssa.Value{}, ci.Common().Args...)})
+			return
+		}
+		// a helper: closure defined in fn, or a static callee of the same package
+		var h *ssa.Function
+		if mc, ok := unwrapLoadAlloc(ci.Common().Value).(*ssa.MakeClosure); ok {
+			h, _ = mc.Fn.(*ssa.Function)
+		} else if sc := ci.Common().StaticCallee(); sc != nil && sc.Pkg == fn.Pkg && len(sc.Blocks) > 0 {
+			h = sc
+		}
+		if h == nil || h == fn {
+			return
+		}
+		nIn := 0
+		for _, b := range h.Blocks {
+			nIn += len(b.Instrs)
+		}
+		if nIn > 120 {
+			return
+		}
+		allInstrs(h, func(i2 ssa.Instruction) {
+			c2, ok := i2.(ssa.CallInstruction)
+			if !ok || !isTarget(c2) {
+				return
+			}
+			args := make([]ssa.Value, len(c2.Common().Args))
+			for k, a := range c2.Common().Args {
+				a = unwrapLoadAlloc(a)
+				if mi, ok := a.(*ssa.MakeInterface); ok {
+					a = unwrapLoadAlloc(mi.X)
+				}
+				for pi, p := range h.Params {
+					if a == ssa.Value(p) && pi < len(ci.Common().Args) {
+						// closures called by value: Args align with Params; static calls too
+						args[k] = ci.Common().Args[pi]
+					}
+				}
+			}
+			out = append(out, effCall{Site: ci, Inner: c2, Helper: h, Args: args})
+		})
+	})
+	return out
+}
+
+// effDominates: a is executed before b on every path (sites in fn; inside one helper, the
+// helper's own dominance).
+func effDominates(a, b effCall) bool {
+	if a.Site != b.Site {
+		return instrDominates(a.Site, b.Site)
+	}
+	if a.Helper != nil && a.Helper == b.Helper {
+		return instrDominates(a.Inner, b.Inner)
+	}
+	return a.Helper == nil && b.Helper == nil && instrDominates(a.Inner, b.Inner)
+}
